@@ -19,11 +19,11 @@ ENGINES = {
 # run counts per tier: constants fixed at calibration (not a wall-clock budget), so that
 # evidence is reproducible.  See DESIGN.md "Calibration".
 RUNS = {
-    "C09": {"quick": 60000, "thorough": 1500000},
+    "C09": {"quick": 50000, "thorough": 1000000},
     "C10": {"quick": 30000, "thorough": 500000},
     "C06": {"quick": 30000, "thorough": 900000},
     "C11": {"quick": 16000, "thorough": 300000},
-    "C05": {"quick": 12000, "thorough": 200000},
+    "C05": {"quick": 10000, "thorough": 160000},
 }
 
 RULES = {
